@@ -346,6 +346,9 @@ def apply_rewrites(root: File, rng: random.Random, n: int) -> Tuple[File, Dict[i
     pool = NamePool(rng)
     for g in root.all_files():
         pool.reserve(g.proto_name)
+        pool.reserve(g.basename)
+        for imp in g.imports:
+            pool.reserve(imp.bound_name)
         for d in iter_defs(g):
             pool.reserve(d.name)
             if isinstance(d, Enum):
